@@ -51,6 +51,9 @@ CHECKS['C14'] = dict(cat='model_checking', tech='table-driven setter machine in 
 CHECKS['C15'] = dict(cat='model_checking', tech='complete newtype domains (Fields.tla) + byte-exact encoders swept per field (Wire.tla)',
    text="Two parts. (1) Fields.tla: the complete value domain (plus out-of-range neighbours up to the argument type's maximum) of VlanId, VlanPcp, IpDscp, IpEcn, IpFragOffset, MacsecAn, MacsecShortLen, Qrv (Ipv6FlowLabel: boundaries + stride, complete in the thorough tier) through try_new/try_from: accepted exactly when the value fits, error carries value and maximum. (2) Wire.tla: every value of every bit field (VLAN id all 4096, PCP, DEI, DSCP, ECN, flags, fragment offset, flow label parts, MACsec AN/SL/flags, TCP flags, data offset) against all-zero and all-ones neighbours must serialise to exactly the specification's bytes, so no field can alter a bit it does not own; decoding returns the value (in range by construction of the extractors, also checked on arbitrary bytes by the C03 field comparison).",
    note=WIRE_NOTE)
+CHECKS['C16'] = dict(cat='fault_enumeration', tech='TLA+ writer / LimitedReader machines model checked + every fault position of every header type executed and validated by Trace_Io',
+   text="spec/IoFault.tla: a sink accepting cap bytes with write_all semantics (a prefix of the failing chunk may be delivered) and the LimitedReader machine; TLC checks PrefixOnly, FaultSurfaces, NoFalseSuccess, NeverOverpulls, BudgetConserved for all chunk plans / call sequences within bounds. Binding (fault positions enumerated, not sampled): for every header type and byte string (encodings of the MC_Wire value space incl. maximum-length variable parts, damaged control bytes, noise) the harness reads under a reader failing after k bytes for EVERY k in 0..=len, writes the decoded value into a writer failing after k bytes for EVERY k in 0..=total+1, write_to_slice into EVERY slice length with canaries behind it, read_limited under EVERY limit; Trace_Io derives the expected verdicts from Wire.tla (header length, content rules): faults surface, no false success, delivered bytes are a prefix, space errors state the true required length, nothing is written outside, no overpull.",
+   note="13 single header types; the multi-part writers (IpHeaders, Ipv6Extensions, PacketBuilder incl. write_to_slice) are exercised by the C12 and C10 checks. Fault model: the source/sink delivers exactly k bytes, then errors.")
 PENDING = {
 }
 NA = []
